@@ -8,6 +8,7 @@
 From Coq Require Import Lia.
 From SA Require Import Model.
 From SA.Spec Require Export Stack.
+From SA.Mon Require Export C12.
 Local Open Scope list_scope.
 
 (** ** State transformers of the primitives *)
@@ -60,13 +61,6 @@ Qed.
 
 (** ** Steps *)
 Definition in_scope (fs : list block) (v : value) : Prop := exists x, lookup_frames x fs = Some v.
-
-(** the values an instruction reads from the scope *)
-Definition read_values (i : instr) : list value :=
-  match i with
-  | IExprValue v _ | IExprStruct v _ _ | IBind v _ => [v]
-  | _ => []
-  end.
 
 (** instructions that are neither declarations nor returns *)
 Definition plain (i : instr) : Prop :=
